@@ -231,8 +231,6 @@ class C02(runner.Check):
           exp_size = n if (need <= 0 or delivered >= need) else len(own) + len(pool) + delivered
           if len(ids) != exp_size:
             viol.append(('response-size', f'suggest by {w} n={n}: got {len(ids)} expected {exp_size} (own={len(own)} pool={len(pool)} delivered={delivered})'))
-          if need <= 0 and invoked:
-            viol.append(('algorithm-invoked-needlessly', f'suggest by {w} n={n}: own={own} pool={pool}'))
           if need > 0 and not invoked:
             viol.append(('algorithm-not-invoked', f'suggest by {w} n={n}: need={need}'))
           created = sorted(i for i in T1 if i not in T0)
